@@ -223,6 +223,32 @@ def generated_specs(draw: Any) -> str:
     return S.render(dict(g, code=code, constraints=cons))
 
 
+# texts that exercise the state the two lexer bases keep by hand (bracket depth, f-string mode, indentation):
+# f-strings of every prefix with escapes and unmatched brackets in their literal parts, brackets spanning lines,
+# blocks - in any order, so that what one construct leaves behind meets every other construct
+SNIPPETS = [
+    "x = f'{n}) item'\n", 'y = f"a]{n}"\n', "z = f'x}}'\n", "z2 = f'{{x'\n", "u = rf'\\t{3}'\n", "v = f'{1}a\\tb'\n",
+    'w = fr"\\d{2}"\n', "q = F'{a!r:>4}'\n", "p = f'({n}'\n", "o = f'{n}' f'{m})'\n", "r = rf'\\n{1}' + f'\\n{2}'\n",
+    "k = f'{n:{w}}'\n", 'j = f"""a\n{n}]"""\n',
+    "t = (1,\n     2)\n", "l = [\n  1,\n  2,\n]\n", "d = {\n 'a': 1}\n", "c = max(1,\n  len(f'{x}'))\n", "e = (\n)\n",
+    "def g(a):\n    return f'{a}]'\n\n", "def h(a):\n    b = (a,\n         1)\n    return b\n\n",
+    "if True:\n    s = f'a)'\nelse:\n    s = [1,\n 2]\n\n", "# comment )\n", "m = 'plain ) string'\n", "n = 3\n",
+]
+GRAMMAR_LINES = ["<start> ::= 'a' | 'b'\n", "<start> ::= <a>{2,}\n<a> ::= 'x' := f'{n}x'\n", "<start> ::= ('a'\n  | 'b')\n",
+                 "<start> ::= <a>\n<a> ::= r'[ab]+'\nwhere f'{<a>})' != 'b)'\n", "<start> ::= 'a'\nwhere (len(str(<start>)) >\n  0)\n"]
+
+
+@st.composite
+def lexer_texts(draw: Any) -> str:
+    parts = [draw(st.sampled_from(SNIPPETS)) for _ in range(draw(st.integers(2, 6)))]
+    g = draw(st.sampled_from(GRAMMAR_LINES))
+    pos = draw(st.integers(0, len(parts)))
+    text = "".join(parts[:pos]) + g + "".join(parts[pos:])
+    if draw(st.integers(0, 5)) == 0:
+        text = text.replace("\n", "\r\n")
+    return text
+
+
 def check_case(case: dict[str, Any], ctx: Any = None) -> list[str]:
     preload_cpp()
     common.import_fandango()
@@ -269,6 +295,14 @@ def run_shard(ctx: Any) -> None:
 
     from hypothesis import Phase
 
+    @given(lexer_texts())
+    def test_lex(text: str) -> None:
+        case = {"text": text, "origin": "lexer_state"}
+        msgs = check_case(case, ctx)
+        if msgs:
+            ctx.fail(case, msgs)
+
+    ctx.run_test(test_lex, 25 if ctx.tier == "quick" else 1500, salt="lex", phases=(Phase.generate,))
     ctx.run_test(test_gen, n_gen, salt="gen", phases=(Phase.generate,))
     ctx.run_test(test_pert, n_pert, salt="pert", phases=(Phase.generate,))
 
